@@ -956,7 +956,7 @@ class Guard:
     """a dominating branch condition of a site: the switch in block `b` was left through one of the
     case labels in `labels` ('otherwise' or an integer string) whenever the site executes"""
 
-    __slots__ = ("fn", "b", "labels", "all_labels", "root", "neg", "line")
+    __slots__ = ("fn", "b", "labels", "all_labels", "root", "neg", "line", "necessary")
 
     def __init__(self, fn, b, labels, all_labels, root, neg):
         # `a != b` is `!(a == b)`: one canonical form, so that `if x == 0 { .. }` and `if x != 0 { return }` read the same
@@ -964,6 +964,7 @@ class Guard:
             root = ("bin", "Eq") + tuple(root[2:])
             neg = not neg
         self.fn, self.b, self.labels, self.all_labels, self.root, self.neg = fn, b, labels, all_labels, root, neg
+        self.necessary = False
         t = fn.blocks[b]["t"]
         self.line = t[4] if len(t) > 4 else 0
 
@@ -1000,23 +1001,45 @@ class Guard:
 
 
 def guards_of(model, fn, site_block, mode="value", _thread=True):
-    """the conditions under which `site_block` runs: its dominating branch conditions (nearest first) followed by its other
-    deciding conditions (vlib/ctrl.py: control dependence on the path-sensitive CFG - the second operand of `a || b`, the
-    condition a named temporary was computed from). Cached per (function, site, mode)."""
+    """the conditions that HOLD whenever `site_block` runs: its dominating branch conditions (nearest first) plus the other
+    necessary conditions found on the path-sensitive CFG (vlib/ctrl.py: every path to the site passes the switch and leaves
+    it through the reaching labels; a switch on a named temporary is resolved to the condition it was computed from).
+    Cached per (function, site, mode). For the conditions that MAY decide the site use conditions_of()."""
     if not _thread:
         return _dominating_guards(model, fn, site_block, mode, _thread)
+    return [g for g in conditions_of(model, fn, site_block, mode) if g.necessary]
+
+
+def conditions_of(model, fn, site_block, mode="value"):
+    """every condition that can decide whether `site_block` runs (control dependence, vlib/ctrl.py), each flagged
+    `.necessary` when it holds on every path to the site. Rules that forbid further conditions ("nothing else decides")
+    read this list; rules that need a condition to hold read guards_of()."""
     key = (site_block, mode)
     cache = fn.__dict__.setdefault("_guards_cache", {})
     if key in cache:
         return cache[key]
-    out = list(_dominating_guards(model, fn, site_block, mode, _thread))
+    out = list(_dominating_guards(model, fn, site_block, mode, True))
+    for g in out:
+        g.necessary = True
     try:
         from .ctrl import deciding
+        dec, nec = deciding(model, fn, site_block, mode, with_necessary=True)
+        # a switch on a named temporary that the product resolved to the condition(s) it was computed from: the resolved
+        # conditions replace the guard on the temporary
+        resolved = {g.b for g in dec + nec if g.root[0] != "local"}
+        out = [g for g in out if not (g.root[0] == "local" and g.b in resolved)]
         have = {(g.b, repr(g.root), g.neg, tuple(sorted(g.labels))) for g in out}
-        for g in deciding(model, fn, site_block, mode):
+        for g in nec:
             k = (g.b, repr(g.root), g.neg, tuple(sorted(g.labels)))
             if k not in have:
                 have.add(k)
+                g.necessary = True
+                out.append(g)
+        for g in dec:
+            k = (g.b, repr(g.root), g.neg, tuple(sorted(g.labels)))
+            if k not in have:
+                have.add(k)
+                g.necessary = False
                 out.append(g)
     except (ValueError, RecursionError):
         pass
